@@ -253,7 +253,63 @@ def case_inplace(name, opts, dtype):
     return CaseResult(fails=fails, states=states, transitions=trans, traces=trans, outcome=f"inplace:{tag}:{dtype}:{states > 0}")
 
 
-CASES = {"generator": case_generator, "inplace": case_inplace}
+def case_transient(name, opts, dtype):
+    """Object-identity history: ONE kernel object is applied in turn to three different output fields that are
+    handed in as temporary view objects (interior view of a padded array, created in the call expression, gone
+    after the call) while the other arrays persist.  Every call must write the field it was given."""
+    real_t = np.dtype(dtype).type
+    eps = float(np.finfo(real_t).eps)
+    cdt = np.complex64 if real_t == np.float32 else np.complex128
+    sp = kernelspec.spec(name, opts)
+    d = registry.gen_dim(name)
+    shim.set_backend("interp")
+    fails = []
+    tag = f"{name}:{','.join(f'{k}={v}' for k, v in sorted(opts.items()) if k not in ('buffers', 'midstep'))}"
+    shape = shapes_for(name, opts)[3]
+    fn, aux = registry.instantiate(name, opts, real_t, num_threads=False, shape=shape)
+    primary, pkind, prole = next((a, k, r) for a, k, r in sp["arrays"] if r in ("inout", "out"))
+    sl_s = tuple(slice(1, -1) for _ in shape)
+    pshape = tuple(n + 2 for n in shape) if pkind in ("s", "c") else (d, *[n + 2 for n in shape])
+
+    def interior(arr):
+        return arr[sl_s] if arr.ndim == d else arr[(slice(None), *sl_s)]
+
+    def vals(shp, k, kind):
+        v = _values(shp, k, kind, "dense", sp.get("input_scale", 1.0))
+        return (v + 1j * _values(shp, k + 7, kind, "dense")) if kind == "c" else v
+
+    owners = [(vals(pshape, 11 + 3 * q, pkind) * (1.0 - 0.5 * q)).astype(cdt if pkind == "c" else real_t) for q in range(3)]
+    shared = {}
+    for k, (arg, kind, role) in enumerate(sp["arrays"]):
+        if arg != primary:
+            shp = shape if kind in ("s", "s+", "c") else (d, *shape)
+            shared[arg] = vals(shp, k, kind).astype(cdt if kind == "c" else real_t)
+    f64 = lambda a, kind: a.astype(np.complex128 if kind == "c" else np.float64).copy()  # noqa: E731
+    pre = [f64(interior(o), pkind) for o in owners]
+    shared_pre = {a_: f64(v, next(k for a2, k, _r in sp["arrays"] if a2 == a_)) for a_, v in shared.items()}
+    s_pass, s_mean = kernelspec.scalar_variant(sp["scalars"], "generic:float", real_t)
+    for q in range(3):  # back to back, nothing allocated in between
+        fn(**{primary: interior(owners[q])}, **shared, **s_pass)
+    states = 0
+    for q in range(3):
+        A = dict(shared_pre)
+        A[primary] = pre[q]
+        exp, mask = sp["ref"](A, s_mean, aux)[primary]
+        mask = np.broadcast_to(mask, pre[q].shape)
+        got = f64(interior(owners[q]), pkind)
+        mag = 1.0 + max([float(np.abs(A[a_]).max()) for a_, _k, r_ in sp["arrays"] if r_ != "out"] + [0.0]) ** 2 + float(np.abs(np.asarray(exp)[mask]).max() if mask.any() else 0)
+        states += 1
+        if mask.any() and not np.all(np.abs(got - exp)[mask] <= 64 * eps * mag):
+            fails.append(Fail(f"{tag}:transient-view-history", "one kernel object applied in turn to three fields passed as temporary views: a field did not receive its documented value",
+                              field_index=q, argument=primary, shape=shape, dtype=dtype, untouched=bool(np.array_equal(got, pre[q], equal_nan=True))))
+            break
+        if not np.array_equal(got[~mask], pre[q][~mask], equal_nan=True):
+            fails.append(Fail(f"{tag}:transient-view-history:outside-region", "cells outside the documented region changed", field_index=q, argument=primary))
+            break
+    return CaseResult(fails=fails, states=states, transitions=3, traces=3, outcome=f"transient:{tag}:{dtype}")
+
+
+CASES = {"generator": case_generator, "inplace": case_inplace, "transient": case_transient}
 
 
 def run(r) -> None:
@@ -269,6 +325,7 @@ def run(r) -> None:
     r.run_cases("generators", "generator", cases)
     inpl = [dict(name=n, opts=o, dtype=dt) for n, o in registry.entries() if any(e in n for e in ELEMENTWISE) and not o.get("fixed") for dt in ("float64", "float32")]
     r.run_cases("in-place-calls", "inplace", inpl)
+    r.run_cases("transient-view-history", "transient", [dict(name=n, opts=o, dtype=dt) for n, o in registry.entries() for dt in ("float64", "float32")])
     r.bounds = {"generators_x_options": len(registry.entries()), "dtypes": 2, "shapes_per_generator": 4, "bindings": BINDINGS, "patterns": PATTERNS, "scalar_arguments": kernelspec.SCALAR_VARIANTS, "call_styles": ["keyword", "positional (wrapper closures)"], "backends": ["interp"] if quick else ["interp", "jit"]}
     r.extra["rule"] = "one state per (generator option tuple, dtype, shape, binding, pattern, array argument): value on the documented region vs closed form, raw bytes everywhere else"
     r.assumptions = ["quick tier executes the captured kernels on the interpreter (bound to the generated code by conformance replay, incl. strided bindings); thorough tier repeats on the JIT back end (4-D kernels: interpreter only)"]
